@@ -104,6 +104,48 @@ def kw_options_of(fi) -> Dict[str, str]:
     return out
 
 
+def UK(e: ast.AST) -> str:
+    """unparse with the keyword arguments of every call in name order (keyword order carries no meaning)."""
+    import copy
+    e = copy.deepcopy(e)
+    for n in ast.walk(e):
+        if isinstance(n, ast.Call):
+            n.keywords = sorted(n.keywords, key=lambda k: (k.arg is None, k.arg or ""))
+    return U(e)
+
+
+EXTRA_OWNERS = {"io.json.parse_json": ["C12"], "io.json.load_json": ["C12"]}   # "JSON parsing" returns independent objects (C12)
+
+
+def rebinds_of(fi) -> Dict[str, List[str]]:
+    """Re-bindings of the function's own parameters: parameter -> sorted list of the (canonical) values assigned to it.
+    An input that is rewritten before it is validated / used is a classic way to make a wrong input look right."""
+    a = fi.node.args
+    params = {x.arg for x in a.posonlyargs + a.args + a.kwonlyargs} - {"self", "cls"}
+    out: Dict[str, List[str]] = {}
+
+    def walk(node):
+        for ch in ast.iter_child_nodes(node):
+            if isinstance(ch, (ast.FunctionDef, ast.AsyncFunctionDef, ast.ClassDef, ast.Lambda)):
+                continue
+            if isinstance(ch, ast.Assign):
+                for t in ch.targets:
+                    for n in ([t] if isinstance(t, ast.Name) else (t.elts if isinstance(t, ast.Tuple) else [])):
+                        if isinstance(n, ast.Name) and n.id in params:
+                            out.setdefault(n.id, []).append(UK(ch.value) if isinstance(t, ast.Name) else f"<item of> {UK(ch.value)}")
+            elif isinstance(ch, ast.AugAssign) and isinstance(ch.target, ast.Name) and ch.target.id in params:
+                out.setdefault(ch.target.id, []).append(f"<{type(ch.op).__name__}>= {UK(ch.value)}")
+            elif isinstance(ch, ast.AnnAssign) and isinstance(ch.target, ast.Name) and ch.target.id in params and ch.value is not None:
+                out.setdefault(ch.target.id, []).append(UK(ch.value))
+            walk(ch)
+    walk(fi.node)
+    return {k: sorted(set(v)) for k, v in out.items()}
+
+
+def decorators_of(fi) -> List[str]:
+    return [UK(d) for d in fi.node.decorator_list]
+
+
 def refusals_of(fi) -> List[dict]:
     """One entry per Raise statement of the function (nested functions excluded): the exception type and the chain of
     enclosing guards (outermost first), each as (canonical condition, decision)."""
@@ -201,6 +243,16 @@ def check(ctx, prop: str, rule: str, floor: int = 1):
                 probs.append(f"keyword option '{o}' (default {d}) is no longer read from the keyword arguments")
             elif nowk[o] != d:
                 probs.append(f"default of keyword option '{o}' is now {nowk[o]} (was {d})")
+        if "rebinds" in ent:
+            nowr = rebinds_of(fi)
+            for prm in sorted(set(nowr) | set(ent["rebinds"])):
+                was, isn = set(ent["rebinds"].get(prm, [])), set(nowr.get(prm, []))
+                for v in sorted(isn - was):
+                    probs.append(f"parameter `{prm}` is now re-bound to `{v[:60]}` (the caller's value is rewritten before it is validated / used)")
+                for v in sorted(was - isn):
+                    probs.append(f"parameter `{prm}` is no longer normalised with `{v[:60]}`")
+        if "decorators" in ent and decorators_of(fi) != ent["decorators"]:
+            probs.append(f"decorators are now {decorators_of(fi)} (were {ent['decorators']}): a caching / wrapping decorator changes what callers get")
         cur = refusals_of(fi)
         for r in ent.get("refusals", []):
             msg = check_refusal(fi, r, cur)
